@@ -410,6 +410,10 @@ impl BlockData {
             .clone()
             .expect("first slice contains a parent, validated in `try_reconstruct_slice`");
         let mut parent_switched = false;
+        if parent.0 >= slot {
+            warn!("parent is not in an earlier slot");
+            return ReconstructBlockResult::Error;
+        }
 
         let mut transactions = vec![];
         for (ind, slice) in &self.slices {
@@ -423,6 +427,10 @@ impl BlockData {
                 }
                 if parent_switched {
                     warn!("parent switched more than once");
+                    return ReconstructBlockResult::Error;
+                }
+                if new_parent.0 >= slot {
+                    warn!("parent switched to a slot that is not earlier");
                     return ReconstructBlockResult::Error;
                 }
                 parent_switched = true;
